@@ -134,9 +134,20 @@ pub fn parse_statement(
 
     if let Some(rest) = trimmed.strip_prefix('#') {
         *line_index += 1;
-        return Ok(ParsedStatement::Nodes(vec![Node::Tag(
-            parse_dynamic_string(rest.trim_start()).map_err(|e| e.with_line(ln))?,
-        )]));
+        // A divert ends the tag (`# tag -> knot`), as it does after `text # tag -> knot`.
+        let (tag_text, divert) = match split_inline_divert(rest) {
+            Some((tag_text, divert)) => (tag_text.trim_end(), Some(divert)),
+            None => (rest, None),
+        };
+        let mut nodes = vec![Node::Tag(
+            parse_dynamic_string(tag_text.trim_start()).map_err(|e| e.with_line(ln))?,
+        )];
+        if let Some(divert) = divert {
+            nodes.push(Node::Divert(
+                parse_divert(divert).map_err(|e| e.with_line(ln))?,
+            ));
+        }
+        return Ok(ParsedStatement::Nodes(nodes));
     }
 
     if trimmed.starts_with('*') || trimmed.starts_with('+') {
